@@ -4,15 +4,14 @@ C11 — Formatting preserves meaning and is idempotent.  PROPERTY THEOREMS ONLY.
 Vocabulary: `fmtExp` / `PModel.text` (`Rooc/Syntax/Format.lean`) is the executable port of the printers
 behind `RoocParser::format`, diffed byte-for-byte against the real formatter on every run; `fmtToks` is the
 same printer as tokens (the driver checks on every case that lexing `fmtExp e` gives `fmtToks e`);
-`parseToks` is the parser model of C09; `fmtToksFixed` is the printer after `fixes/C11-parens.diff`.
+`parseToks` is the parser model of C09.
 The theorems are about the expression sub-language (the objective, both sides of every constraint,
 constant values and domain bounds are such expressions); the program skeleton, declarations, blocks and
 iterations are covered by the correspondence run and the implementation-side re-parse only.
 -/
 import Lean
 import Rooc.Proofs.Format
-import Rooc.Proofs.Idem
-import Rooc.Proofs.IdemText
+import Rooc.Proofs.LexFormat
 namespace Rooc.Props.C11
 open Rooc Rooc.Syntax Rooc.Syntax.Doc Rooc.Syntax.Proofs
 
@@ -22,85 +21,40 @@ theorem printer_table_documented (o : BinOp) :
     Gen.binPrec o = docLevel o ∧ Gen.binLeftAssoc o = !(docRightAssoc o) :=
   ⟨prec_documented o, assoc_documented o⟩
 
-/-- **`parse (format t) = t`** — proved where the printer emits every parenthesis the grammar needs
-(`roundTrips`, a decidable predicate the driver evaluates): every tree without an operand of EQUAL
-precedence on the regrouping side. -/
-theorem parse_format_partial (t : PExp) (h : WF t) (hr : roundTrips t = true) :
-    parseToks (fmtToks t) = .ok t := by
-  obtain ⟨items, hk, _⟩ := fmt_tk t h hr
+/-- **`parse (format t) = t`** for EVERY tree of the sub-language: the printer emits every parenthesis the
+grammar needs. -/
+theorem parse_format (t : PExp) (h : WF t) : parseToks (fmtToks t) = .ok t := by
+  obtain ⟨items, hk, _⟩ := fmt_tk t h
   exact parse_tk hk
 
-example : WF (.bin .sub (.bin .sub (.var "x") (.var "y")) (.bin .mul (.int 2) (.un .neg (.bin .add (.var "z") (.int 1)))))
-    ∧ roundTrips (.bin .sub (.bin .sub (.var "x") (.var "y")) (.bin .mul (.int 2) (.un .neg (.bin .add (.var "z") (.int 1))))) = true := by
-  refine ⟨?_, by decide⟩
+example : WF (.bin .sub (.var "x") (.bin .sub (.var "y") (.bin .mul (.int 2) (.un .neg (.bin .add (.var "z") (.int 1)))))) := by
   simp [WF]; decide
 
-/-- … and it is FALSE outside: `x - (y - z)` is printed `x - y - z`, which is read as `(x - y) - z`. -/
-theorem parse_format_counterexample :
-    WF (.bin .sub (.var "x") (.bin .sub (.var "y") (.var "z")))
-      ∧ roundTrips (.bin .sub (.var "x") (.bin .sub (.var "y") (.var "z"))) = false
-      ∧ parseToks (fmtToks (.bin .sub (.var "x") (.bin .sub (.var "y") (.var "z"))))
-          = .ok (.bin .sub (.bin .sub (.var "x") (.var "y")) (.var "z")) := by
-  refine ⟨by simp [WF]; decide, by decide, ?_⟩
-  have hx : Atom (.var "x") (.word "x") := Atom.var "x" (by decide) (by decide)
-  have hy : Atom (.var "y") (.word "y") := Atom.var "y" (by decide) (by decide)
-  have hz : Atom (.var "z") (.word "z") := Atom.var "z" (by decide) (by decide)
-  have := parse_tk (Tk.bin (Tk.bin (Tk.atom hx) (Tk.atom hy) (Or.inl rfl) (Or.inl rfl) (by simp [binToks] : Tok.minus ∈ binToks .sub))
-    (Tk.atom hz) (Or.inr (by decide)) (Or.inl rfl) (by simp [binToks] : Tok.minus ∈ binToks .sub))
-  simpa [fmtToks, printsParen, Gen.binPrec, binKwTok] using this
+/-- **Formatting is idempotent**: the formatted tokens parse, and what they parse to is formatted as the
+same tokens. -/
+theorem format_idem (t : PExp) (h : WF t) :
+    ∃ t', parseToks (fmtToks t) = .ok t' ∧ fmtToks t' = fmtToks t :=
+  ⟨t, parse_format t h, rfl⟩
 
-/-- The needed-but-not-printed parentheses are EXACTLY these (parent, child) pairs on the right …
-(the finite table behind the known findings `paren-dropped:<parent>/<child>/right`) -/
-theorem dropped_right_table (p c : BinOp) (x y : PExp) :
-    (needParenRight p (.bin c x y) = true ∧ printsParen (Gen.binPrec p) (.bin c x y) = false) ↔
-      (p, c) ∈ [(BinOp.add, BinOp.add), (.add, .sub), (.sub, .add), (.sub, .sub), (.mul, .mul), (.mul, .div),
-                (.div, .mul), (.div, .div), (.and, .and), (.or, .or), (.xor, .xor), (.iff, .iff), (.iff, .implies)] := by
+/-- **No needed parenthesis is dropped**: the table of (parent, child) pairs whose RIGHT operand needs
+parentheses that the printer does not emit is empty … -/
+theorem dropped_right_table_empty (p c : BinOp) (x y : PExp) :
+    ¬ (needParenRight p (.bin c x y) = true ∧ printsParen p true (.bin c x y) = false) := by
   simp only [needParenRight, printsParen]
   cases p <;> cases c <;> decide
 
-/-- … and these on the left (`paren-dropped:<parent>/<child>/left`). -/
-theorem dropped_left_table (p c : BinOp) (x y : PExp) :
-    (needParenLeft p (.bin c x y) = true ∧ printsParen (Gen.binPrec p) (.bin c x y) = false) ↔
-      (p, c) ∈ [(BinOp.implies, BinOp.implies), (.iff, .implies)] := by
+/-- … and so is the table for LEFT operands. -/
+theorem dropped_left_table_empty (p c : BinOp) (x y : PExp) :
+    ¬ (needParenLeft p (.bin c x y) = true ∧ printsParen p false (.bin c x y) = false) := by
   simp only [needParenLeft, printsParen]
   cases p <;> cases c <;> decide
 
-/-- `format (parse (format t)) = format t` on the same region. -/
-theorem format_idem_partial (t : PExp) (h : WF t) (hr : roundTrips t = true) :
-    (parseToks (fmtToks t)).map fmtToks = .ok (fmtToks t) := by
-  rw [parse_format_partial t h hr]; rfl
-
-/-- **The formatted text always parses and formats to itself again** — for EVERY tree of the sub-language,
-also where parentheses are dropped: the printed tokens parse to `norm t` (`t` re-associated exactly at the
-dropped parentheses), and that tree is printed as the same tokens. (So the defect is "meaning changes",
-never "invalid program" or "not idempotent", on this fragment.) -/
-theorem format_idem (t : PExp) (h : WF t) :
-    ∃ t', parseToks (fmtToks t) = .ok t' ∧ fmtToks t' = fmtToks t :=
-  ⟨norm t, fmt_idem t h⟩
-
-example : norm (.bin .sub (.var "x") (.bin .sub (.var "y") (.var "z"))) = .bin .sub (.bin .sub (.var "x") (.var "y")) (.var "z") := by
-  simp [norm, join, dropL, dropR, needParenLeft, needParenRight, printsParen, Gen.binPrec, lbpD, rbpD, docLevel, docRightAssoc]
-
-/-- **The repair is right**: with `fixes/C11-parens.diff` (parentheses also around a right operand of equal
-precedence under a left-associative operator and around a right-associative left operand of equal
-precedence) `parse (format t) = t` holds for EVERY tree of the sub-language … -/
-theorem parse_format_fixed (t : PExp) (h : WF t) : parseToks (fmtToksFixed t) = .ok t := by
-  obtain ⟨items, hk, _⟩ := fmtFixed_tk t h
-  exact parse_tk hk
-
-/-- … and formatting is idempotent. -/
-theorem format_idem_fixed (t : PExp) (h : WF t) :
-    (parseToks (fmtToksFixed t)).map fmtToksFixed = .ok (fmtToksFixed t) := by
-  rw [parse_format_fixed t h]; rfl
-
-example : WF (.bin .sub (.var "x") (.bin .sub (.var "y") (.var "z"))) := by simp [WF]; decide
-
-/-- the repaired rule never adds parentheses the grammar does not need on the operands the old rule left
-bare: it is the old rule plus exactly the two tables above -/
-theorem fixed_rule_is_minimal (p c : BinOp) (x y : PExp) :
-    (printsParenFixed p true (.bin c x y) = (printsParen (Gen.binPrec p) (.bin c x y) || needParenRight p (.bin c x y)))
-    ∧ (printsParenFixed p false (.bin c x y) = (printsParen (Gen.binPrec p) (.bin c x y) || needParenLeft p (.bin c x y))) := by
-  simp only [printsParenFixed, printsParen, needParenRight, needParenLeft]
+/-- the printer's rule is minimal: it parenthesises an operand exactly when its precedence is strictly lower
+or the grammar needs it -/
+theorem printer_rule_is_minimal (p c : BinOp) (x y : PExp) :
+    (printsParen p true (.bin c x y) = (decide (Gen.binPrec c < Gen.binPrec p) || needParenRight p (.bin c x y)))
+    ∧ (printsParen p false (.bin c x y) = (decide (Gen.binPrec c < Gen.binPrec p) || needParenLeft p (.bin c x y))) := by
+  simp only [printsParen, needParenRight, needParenLeft]
   cases p <;> cases c <;> decide
 
 /-! ### on the printed TEXT: `fmtExp` is the printer the byte-exact diff validates -/
@@ -110,39 +64,45 @@ names and float literals `ddd.ddd`) -/
 theorem printed_text_tokens (t : PExp) (ht : TextOK t) : lex (fmtExp t).toList = .ok (fmtToks t) :=
   lex_fmtExp t ht
 
-/-- `parse (format t) = t` on the text, same region as `parse_format_partial` -/
-theorem parse_format_text_partial (t : PExp) (h : WF t) (ht : TextOK t) (hr : roundTrips t = true) :
-    parseText (fmtExp t).toList = .ok t := by
-  simp only [parseText, lex_fmtExp t ht, parse_format_partial t h hr]
+/-- `parse (format t) = t` on the text -/
+theorem parse_format_text (t : PExp) (h : WF t) (ht : TextOK t) : parseText (fmtExp t).toList = .ok t := by
+  simp only [parseText, lex_fmtExp t ht, parse_format t h]
 
 /-- the formatted TEXT of every tree parses, and the tree it parses to is formatted as the same TEXT -/
 theorem format_idem_text (t : PExp) (h : WF t) (ht : TextOK t) :
     ∃ t', parseText (fmtExp t).toList = .ok t' ∧ fmtExp t' = fmtExp t :=
-  ⟨norm t, fmt_idem_text t h ht⟩
+  ⟨t, parse_format_text t h ht, rfl⟩
 
-/-! ### the same on concrete texts (`fmtExp` is the printer the byte-exact diff validates) -/
+/-! ### regression examples for the defects repaired in 6b01e1a / b4e2d1a / 8bf5921 -/
 
-/-- `x - (y - z)`, `x / (2 * y)` and `x - (y + z)` are printed without their parentheses … -/
-theorem text_dropped_parens :
-    fmtExp (.bin .sub (.var "x") (.bin .sub (.var "y") (.var "z"))) = "x - y - z"
-    ∧ fmtExp (.bin .div (.var "x") (.bin .mul (.int 2) (.var "y"))) = "x / 2 * y"
-    ∧ fmtExp (.bin .sub (.var "x") (.bin .add (.var "y") (.var "z"))) = "x - y + z" := by
-  simp [fmtExp, wrapPrec, varText, binOpText, Gen.binPrec, natDigits, digitChar]
+/-- `x - (y - z)`, `x / (2 * y)`, `x - (y + z)` and `(a implies b) iff c` keep their parentheses … -/
+theorem text_keeps_needed_parens :
+    fmtExp (.bin .sub (.var "x") (.bin .sub (.var "y") (.var "z"))) = "x - (y - z)"
+    ∧ fmtExp (.bin .div (.var "x") (.bin .mul (.int 2) (.var "y"))) = "x / (2 * y)"
+    ∧ fmtExp (.bin .sub (.var "x") (.bin .add (.var "y") (.var "z"))) = "x - (y + z)"
+    ∧ fmtExp (.bin .iff (.bin .implies (.var "a") (.var "b")) (.var "c")) = "(a implies b) iff c" := by
+  simp [fmtExp, wrapOperand, printsParen, varText, needsEscape, binOpText, Gen.binPrec, Gen.binLeftAssoc, natDigits, digitChar]
 
-/-- … and the printed text of the first one is read back as a different tree. -/
-theorem text_format_changes_tree :
-    parseText (fmtExp (.bin .sub (.var "x") (.bin .sub (.var "y") (.var "z")))).toList
-      = .ok (.bin .sub (.bin .sub (.var "x") (.var "y")) (.var "z")) := by
-  rw [text_dropped_parens.1]
-  have hl : lex "x - y - z".toList = .ok (fmtToks (.bin .sub (.var "x") (.bin .sub (.var "y") (.var "z")))) := by decide
-  have hp := parse_format_counterexample.2.2
-  simp only [parseText, hl, hp]
+/-- … and no redundant ones: `(x - y) - z`, `a implies (b implies c)`, `x + y * z` -/
+theorem text_no_redundant_parens :
+    fmtExp (.bin .sub (.bin .sub (.var "x") (.var "y")) (.var "z")) = "x - y - z"
+    ∧ fmtExp (.bin .implies (.var "a") (.bin .implies (.var "b") (.var "c"))) = "a implies b implies c"
+    ∧ fmtExp (.bin .add (.var "x") (.bin .mul (.var "y") (.var "z"))) = "x + y * z" := by
+  simp [fmtExp, wrapOperand, printsParen, varText, needsEscape, binOpText, Gen.binPrec, Gen.binLeftAssoc]
 
 /-- a prefix operator keeps the parentheses of its operand: `-(x + y)`, `not (a or b)` -/
 theorem text_unary_keeps_parens :
     fmtExp (.un .neg (.bin .add (.var "x") (.var "y"))) = "-(x + y)"
     ∧ fmtExp (.un .not (.bin .or (.var "a") (.var "b"))) = "not (a or b)"
     ∧ fmtExp (.un .neg (.un .neg (.int 2))) = "-(-2)" := by
-  simp [fmtExp, wrapPrec, wrapLeaf, varText, binOpText, unOpText, PExp.isLeaf, Gen.binPrec, natDigits, digitChar]
+  simp [fmtExp, wrapOperand, printsParen, wrapLeaf, varText, needsEscape, binOpText, unOpText, PExp.isLeaf, Gen.binPrec,
+    Gen.binLeftAssoc, natDigits, digitChar]
+
+/-- a `solve` program is printed without an operand; a name with leading underscores is not escaped, a name
+with an inner underscore is -/
+theorem text_solve_and_names :
+    ({ objKind := .solve, objective := .bool true, constraints := [], constants := [], domains := [] } : PModel).text = "solve\ns.t.\n"
+    ∧ varText "_u" = "_u" ∧ varText "$_v" = "$_v" ∧ varText "__w" = "__w" ∧ varText "x_1" = "\\x_1" := by
+  refine ⟨by simp [PModel.text, ObjKind.text], ?_, ?_, ?_, ?_⟩ <;> simp [varText, needsEscape] <;> decide
 
 end Rooc.Props.C11
